@@ -4438,6 +4438,25 @@ impl Lexer<'_> {
         self.dispatch_macro_call_or_stat(kw_tok_type, allow_macro_label);
     }
 
+    /// Looks ahead to check whether `%` at the cursor starts `%while` or `%until`
+    fn is_macro_do_while_or_until(&self) -> bool {
+        if !is_valid_unicode_sas_name_start(self.cursor.peek_next()) {
+            return false;
+        }
+
+        let mut la_cursor = self.cursor.clone();
+        // Move past the % to the actual identifier
+        la_cursor.advance();
+
+        matches!(
+            lex_macro_call_stat_or_label(&mut la_cursor),
+            Ok((
+                TokenTypeMacroCallOrStat::KwmWhile | TokenTypeMacroCallOrStat::KwmUntil,
+                _
+            ))
+        )
+    }
+
     /// Performs look-ahead to disambiguate between:
     /// - %do;
     /// - %do %while(...);
@@ -4466,38 +4485,11 @@ impl Lexer<'_> {
                 // We know that the following WS may not be significant
                 self.push_mode(LexerMode::WsOrCStyleCommentOnly);
             }
-            '%' if is_valid_unicode_sas_name_start(self.cursor.peek_next()) => {
+            '%' if self.is_macro_do_while_or_until() => {
+                // %do %while(...) / %do %until(...). The keyword lexer
+                // sets the mode stack for the rest of the statement
                 self.start_token();
                 self.lex_macro_identifier(false);
-
-                // This may be both %do %while/until or %do %mcall_that_creates_iter_var
-                // so we need to fork on the type of the last token. For %while/until
-                // we do nothing because lexer above has already set the mode stack,
-                // for the macro call we do the same as for all other symbols - push the,
-                // name expression mode, except that we know we've found at least the start
-                if self.buffer.last_token_info().is_some_and(|ti| {
-                    ![TokenType::KwmUntil, TokenType::KwmWhile].contains(&ti.token_type)
-                }) {
-                    self.push_mode(LexerMode::MacroEval {
-                        macro_eval_flags: MacroEvalExprFlags::new(
-                            MacroEvalNumericMode::Integer,
-                            MacroEvalNextArgumentMode::None,
-                            true,
-                            true,
-                            false, // doesn't matter really
-                        ),
-                        pnl: 0,
-                    });
-                    self.push_mode(LexerMode::WsOrCStyleCommentOnly);
-                    self.push_mode(LexerMode::ExpectSymbol(
-                        TokenType::ASSIGN,
-                        TokenChannel::DEFAULT,
-                    ));
-                    self.push_mode(LexerMode::WsOrCStyleCommentOnly);
-                    // Note the difference from below. We already lexed one part of the var name expr,
-                    // so we pass `true` and do not pass error, since it won't ever be emitted anyway
-                    self.push_mode(LexerMode::MacroNameExpr(true, None));
-                }
             }
             _ => {
                 // %do var=...; A mix of %let and %if expression
